@@ -127,9 +127,10 @@ void Kernel::run_pending_signals() {
 }
 
 void Kernel::enter(const char* what) {
-  (void)what;
   if (!sched.current()) return;
   if (yield_on_syscall) sched.yield();
+  // POSIX cancellation points act on a pending (deferred) cancellation request when they are entered
+  if (what[0] == '!') cancel_point();
 }
 
 bool Kernel::cancel_point() {
@@ -392,12 +393,12 @@ int Kernel::sys_select(int nfds, fd_set* r, fd_set* w, fd_set* e, struct timeval
       if (n == 0) count("select_timeout");
       return n;
     }
-    th.at_cancel_point = true;
+    th.at_cancel_point = true; th.in_select = true;
     if (deadline >= 0) {
       if (!armed) { armed = true; }
       wait_until(deadline);
     } else wait();
-    thr().at_cancel_point = false;
+    thr().at_cancel_point = false; thr().in_select = false;
   }
 }
 
@@ -577,7 +578,7 @@ int __wrap_listen(int fd, int b) {
 int __wrap_accept(int fd, struct sockaddr* a, socklen_t* l) {
   if (!is_simfd(fd)) { if (in_sim_range(fd)) { errno = EBADF; return -1; } return __real_accept(fd, a, l); }
   simk::KScope ks;
-  K->enter("accept");
+  K->enter("!accept");
   int r = K->sys_accept(fd);
   if (r >= 0 && a && l) {
     struct sockaddr_un un; memset(&un, 0, sizeof un); un.sun_family = AF_UNIX;
@@ -590,45 +591,45 @@ int __wrap_accept(int fd, struct sockaddr* a, socklen_t* l) {
 int __wrap_connect(int fd, const struct sockaddr* a, socklen_t l) {
   if (!is_simfd(fd)) return __real_connect(fd, a, l);
   simk::KScope ks;
-  K->enter("connect");
+  K->enter("!connect");
   if (a->sa_family != AF_UNIX) { errno = EAFNOSUPPORT; return -1; }
   return K->sys_connect(fd, ((const struct sockaddr_un*)a)->sun_path);
 }
 ssize_t __wrap_send(int fd, const void* b, size_t n, int fl) {
   if (!is_simfd(fd)) { if (in_sim_range(fd)) { errno = EBADF; return -1; } return __real_send(fd, b, n, fl); }
   simk::KScope ks;
-  K->enter("send");
+  K->enter("!send");
   return K->sys_send(fd, b, n, "send");
 }
 ssize_t __wrap_recv(int fd, void* b, size_t n, int fl) {
   if (!is_simfd(fd)) { if (in_sim_range(fd)) { errno = EBADF; return -1; } return __real_recv(fd, b, n, fl); }
   simk::KScope ks;
-  K->enter("recv");
+  K->enter("!recv");
   return K->sys_recv(fd, b, n, "recv");
 }
 ssize_t __wrap_read(int fd, void* b, size_t n) {
   if (!is_simfd(fd)) { if (in_sim_range(fd)) { errno = EBADF; return -1; } return __real_read(fd, b, n); }
   simk::KScope ks;
-  K->enter("read");
+  K->enter("!read");
   if (K->get(fd)->kind == simk::FK_DEV) { errno = EINVAL; return -1; }
   return K->sys_recv(fd, b, n, "read");
 }
 ssize_t __wrap_write(int fd, const void* b, size_t n) {
   if (!is_simfd(fd)) { if (in_sim_range(fd)) { errno = EBADF; return -1; } return __real_write(fd, b, n); }
   simk::KScope ks;
-  K->enter("write");
+  K->enter("!write");
   return K->sys_send(fd, b, n, "write");
 }
 int __wrap_close(int fd) {
   if (!is_simfd(fd)) { if (in_sim_range(fd)) { K->count("close_ebadf"); errno = EBADF; return -1; } return __real_close(fd); }
   simk::KScope ks;
-  K->enter("close");
+  K->enter("!close");
   return K->sys_close(fd);
 }
 int __wrap_select(int n, fd_set* r, fd_set* w, fd_set* e, struct timeval* tv) {
   if (!in_sim()) return __real_select(n, r, w, e, tv);
   simk::KScope ks;
-  K->enter("select");
+  K->enter("!select");
   return K->sys_select(n, r, w, e, tv);
 }
 int __wrap_fcntl(int fd, int cmd, ...) {
